@@ -17,7 +17,9 @@ RULE = ("random histories (quick <= 8 ops, thorough <= 20) over {create v1/v2/hy
         "copy of the filesystem; observables (metafile bytes, edited bytes, percentage, "
         "rebuild count + destination snapshot, URI, error kind) must be equal; distinct by op "
         "kind sequence; non-trivial when the history mutates the tree between two operations "
-        "on it")
+        "on it; plus a static inventory of the package's process-lifetime state (caches, "
+        "class/module-level containers that are mutated, class attribute assignments, globals, "
+        "mutable defaults, os.environ writes) compared with the fields of the Lean model's Proc")
 
 
 def gen_history(rng, length):
@@ -188,4 +190,16 @@ def run(tier, seed, replay=None):
                      classes=sorted(set(o["op"] for o in hist)))
             if failure:
                 run.fail("impl-vs-spec", {"seed": s, "length": length, "history": hist}, failure)
+    # the tie of the Lean model's process state (TorrentVerif.Proc) to the source: every piece of
+    # process-lifetime state the package keeps must be a field of Proc (harness/state_inventory.py)
+    if not replay:
+        from harness import state_inventory
+        items = state_inventory.inventory(REPO)
+        run.model_checked += len(items)
+        new = [i for i in items if i not in state_inventory.PROC_FIELDS]
+        if new:
+            run.fail("impl-vs-model", {"state_inventory": items},
+                     {"correspondence": "TorrentVerif.Proc lists all process-lifetime state "
+                                        "(history_independent is a frame argument over its fields)",
+                      "not_modelled": new})
     return run.finish()
